@@ -22,7 +22,7 @@ pub fn spec() -> Spec {
         case_cap_s: |t| t.pick(300, 3600),
         rule: "one case per connected complete 2-dimensional symbol: every labeled symbol of size <= 4 (all renumberings) and every class representative of size 5 (thorough: up to 7, with systematic renumberings) x every branching vector over {1,2,3,4,5,11}. Clauses: curvature = sum over chambers of 1/m01 + 1/m12 - 1/2 (definition); curvature = 2 * chi(parse(orbifold_symbol)); symbol (normalised over cone order, component order, rotation and reversal of corner lists) and curvature equal to those of the class representative and of the dual; curvature of harness-built 2-sheeted covers, of oriented_cover and of covers(s, <= 3) = sheets * curvature; is_euclidean/is_hyperbolic/is_spherical against the sign of K and the tear-drop/spindle test on the orbifold computed from the definitions by the reference model. Non-trivial = size >= 2 or some branching > 1.",
         assumptions: &["covers(s, k) and oriented_cover only supply covers; each is verified to be a covering by the reference model and its sheet number is taken from that verification"],
-        bounds: |t| json!({"labeled_max_size": 4, "class_representatives_size": t.pick(7, 8), "V": [1,2,3,4,5,11], "degree_boundary_family": "sizes <= 3 [4], values 1-13, 19-21, 99-101, 999, 1000 on <= 2 orbits (1 orbit above size 2)", "size_5_plus_V": t.pick(json!([1,2,3,4,5,11]), json!([1,2,3,5,11])),
+        bounds: |t| json!({"labeled_max_size": 4, "class_representatives_size": t.pick(7, 8), "V": [1,2,3,4,5,11], "large_family": "2D Coxeter coset symbols of 6-120 [384] chambers and every 7th [2nd] generator representative of 9-12 [14] chambers (unbranched, one branched orbit), as given and in 2 renumberings", "degree_boundary_family": "sizes <= 3 [4], values 1-13, 19-21, 99-101, 999, 1000 on <= 2 orbits (1 orbit above size 2)", "size_5_plus_V": t.pick(json!([1,2,3,4,5,11]), json!([1,2,3,5,11])),
             "crate_covers_max_sheets": 3, "crate_covers_on_sizes_up_to": t.pick(3, 4)}),
     }
 }
@@ -178,6 +178,47 @@ fn run(ctx: &mut Ctx) {
                 });
             }
         });
+    }
+    // large symbols, many of them with mirrors and several boundary components: coset symbols of the finite
+    // 2-dimensional Coxeter groups (6-120 [384] chambers), and mid-size generator representatives (sizes 9-12
+    // [14], unbranched and one branched orbit), each as given and in two systematic renumberings
+    {
+        use rust_dsymbols::dsets::DSet;
+        use rust_dsymbols::generators::dset_generators::DSets;
+        let mut list: Vec<RS> = vec![];
+        for (_, c) in coxeter_symbols(tier.pick(120, 384)) {
+            if c.dim() == 2 && c.n >= 6 {
+                list.push(c);
+            }
+        }
+        let hi = tier.pick(12, 14);
+        let sets = ctx.supply("DSets::new", || DSets::new(2, hi).filter(|d| d.size() >= 9).collect::<Vec<_>>());
+        for (k, ds) in sets.iter().enumerate() {
+            // every 7th [2nd] set: a spread over the whole list, loops and handles included
+            if k % tier.pick(7, 2) != 0 {
+                continue;
+            }
+            if let Some(plain) = from_dset(ds) {
+                if plain.is_involutive() && plain.is_connected() {
+                    for_each_branching(&plain.ops, &[1, 2, 3], 1, &mut |s| list.push(s.clone()));
+                }
+            }
+        }
+        for s in list {
+            if !ctx.take() {
+                continue;
+            }
+            ctx.add("large_symbols", 1);
+            ctx.max("largest_symbol", s.n as i64);
+            check_symbol(ctx, "large", &s, None, false);
+            let rn = systematic_renumberings(s.n);
+            for (name, p) in rn.iter() {
+                if name == "reverse" || name == "shuffle-in" {
+                    let t = s.relabel(p);
+                    check_symbol(ctx, "large-renumbered", &t, Some(&s), false);
+                }
+            }
+        }
     }
     // size 5 and up: one representative per class of D-sets (brute force over labeled sets, least labeling), systematic renumberings
     let vals_big: Vec<usize> = vec![1, 2, 3, 5, 11];
